@@ -22,6 +22,13 @@ pub fn lengths(cx: &mut Ctx, args: &Args, rng: &mut Rng) -> i32 {
         let (name, bs, ksz) = (cx.types[ti].name, cx.types[ti].bs, cx.types[ti].key_size);
         let mut r = rng.fork(name);
         cx.reset(name);
+        {
+            let t = &cx.types[ti];
+            let clone_ok = (t.new_slice)(&vec![0u8; *key_lens(t, false).last().unwrap()]).ok().and_then(|i| i.clone_box()).is_some();
+            let v = json!({"ev":"typeinfo","type":name,"bs":t.bs,"key_size":t.key_size,"kind":t.kind.name(),"conv":(t.conv_targets)(),
+                           "clone":clone_ok,"send":(t.send)(),"sync":(t.sync)(),"size_of":t.size_of});
+            cx.emit(v);
+        }
         for len in 0..=maxlen {
             let key = match r.below(4) {
                 0 => vec![0u8; len],
